@@ -241,3 +241,10 @@ SEGENV = {'ITV_SNAP_EVERY': '1000000', 'ITV_SNAP_KINDS': 'Q'}
 for _pid in ('C03', 'C16', 'C10'):
     PROPS[_pid]['batches']['quick'] = PROPS[_pid]['batches']['quick'] + [('debug', 'bigseg', 6, 0, SEGENV), ('release', 'bigseg', 6, 0, SEGENV)]
     PROPS[_pid]['batches']['thorough'] = PROPS[_pid]['batches']['thorough'] + [('debug', 'bigseg', 60, 0, SEGENV), ('release', 'bigseg', 60, 0, SEGENV)]
+
+# tall thin trees found by greedy search on the implementation (harness/src/big.rs, gen_thin)
+for _pid in ('C02', 'C04', 'C05', 'C08', 'C09', 'C11', 'C13'):
+    PROPS[_pid]['batches']['quick'] = PROPS[_pid]['batches']['quick'] + [('release', 'thin', 4, 0, None)]
+    PROPS[_pid]['batches']['thorough'] = PROPS[_pid]['batches']['thorough'] + [('release', 'thin', 40, 0, None), ('debug', 'thin', 20, 0, None)]
+PROPS['C10']['batches']['quick'] = PROPS['C10']['batches']['quick'] + [('debug', 'thin', 3, 0, None)]
+PROPS['C10']['batches']['thorough'] = PROPS['C10']['batches']['thorough'] + [('debug', 'thin', 30, 0, None)]
